@@ -95,6 +95,8 @@ func (b *Broker) listOffsetsExt(req *Request) Reply {
 				code = p.ListErr
 			case p.Leader != b.ID:
 				code = 6
+			case p.ListErrTime != 0 && q.ts >= 0:
+				code = p.ListErrTime
 			default:
 				off, ts = p.OffsetForTime(q.ts)
 			}
